@@ -101,10 +101,10 @@ def run_function(repo, cls, name, kind, params, spec_module='specs.ir', opts=Non
     t_start = time.time()
     ctx = Ctx()
     ct = ClassTable(repo=repo)
-    for c_, f_ in SU['files'].items(): ct.load(c_, f_)
     irm = importlib.import_module('specs.ir')
     importlib.import_module('specs.ir_loops')
     sm = importlib.import_module(SU['module'])
+    for c_, f_ in dict(SU['files'], **getattr(sm, 'FILES', {})).items(): ct.load(c_, f_)
     fm = importlib.import_module(SU['functions'])
     spec = getattr(sm, SU['spec_class'])(ctx, ct)
     if (cls, name, kind) in getattr(fm, 'POSITIONAL', set()): ctx.enable_positions()
